@@ -356,6 +356,21 @@ def rule_r3(prog, res) -> None:
                         "overwrite=True deletes any existing directory, not only a catalog cache",
                         key_extra="rmtree",
                     )
+            # … and that overwriting was asked for: every path to the rmtree has decided the function's overwrite flag to
+            # be true (without the flag an existing catalog is refused, never replaced)
+            ow = next((q for q in fi.param_names() if "overwrite" in q or q in ("force", "clobber")), None)
+            if ow is not None:
+                def says_overwrite(t, pol) -> bool:
+                    return pol is True and any(isinstance(y, ast.Name) and y.id == ow for y in ast.walk(t)) and not any(isinstance(y, ast.UnaryOp) and isinstance(y.op, ast.Not) for y in ast.walk(t))
+
+                def says_overwrite_neg(t, pol) -> bool:
+                    return pol is False and isinstance(t, ast.UnaryOp) and isinstance(t.op, ast.Not) and isinstance(t.operand, ast.Name) and t.operand.id == ow
+
+                asked = all(any(says_overwrite(t, pol) or says_overwrite_neg(t, pol) for t, pol, _n in p.conds) or any((pol is True and isinstance(t, ast.Name) and t.id == ow) or (pol is False and isinstance(t, ast.UnaryOp) and isinstance(t.operand, ast.Name) and t.operand.id == ow) for t, pol in p.literals()) for p, _ in rm_paths)
+                if asked:
+                    res.ok("C09.R3", res.site(fi, f"{ow} permits"), f"every path to the rmtree has found `{ow}` to be true")
+                else:
+                    res.violation("C09.R3", fi, call, f"an existing catalog can be deleted (shutil.rmtree) on a path that has not found `{ow}` to be true: creating a catalog over an existing cache destroys it although overwriting was not requested", key_extra="rmtree-without-overwrite")
             # nothing on disk is touched on the way to the refusal
             mut_ops = {"rmtree", "mkdir", "unlink", "rmdir", "rename", "replace", "write", "touch"}
             S = summaries(prog)
@@ -825,6 +840,37 @@ def rule_r7(prog, res) -> None:
         raise AnalysisError(f"C09.R7: only {n} same-name parameter hand-overs found, minimum 20")
 
 
+def rule_r8(prog, res) -> None:
+    """patch ids that the library generates itself fit the stored integer type: wherever the way of patching is decided
+    (`PatchMode.determine`), the arm for given centres range-checks the number of centres and the arm for a number of
+    patches range-checks that number (`check_patch_ids`) before the mode is returned — ids beyond the 16-bit range wrap
+    around silently and objects land in patches with small ids"""
+    from .. import symx
+
+    pm = prog.find_class("PatchMode")
+    det = pm.methods.get("determine") if pm else None
+    if det is None:
+        raise AnalysisError("C09.R8: PatchMode.determine vanished")
+    res.touch(det)
+    chk = prog.func("check_patch_ids")
+    n = 0
+    for p in symx.explore(prog, det, inline=symx.inline_private_helpers(prog, public={"check_patch_ids"}), skip_tests=("logger", "log_sink")):
+        if p.outcome != "return" or p.value is None:
+            continue
+        mode = unparse(p.value).split(".")[-1]
+        if mode not in ("apply", "create"):
+            continue
+        n += 1
+        what = "patch_centers" if mode == "apply" else "patch_num"
+        checked = [ev for ev in p.calls() if chk in prog.resolve_call(ev.fi, ev.node).funcs() and ev.expr.args and symx.mentions(ev.expr.args[0], lambda y: isinstance(y, ast.Name) and y.id == what)]
+        if checked:
+            res.ok("C09.R8", res.site(det, f"mode {mode}"), f"the number of patches ({unparse(checked[0].expr.args[0])[:30]}) is range-checked before the mode is returned")
+        else:
+            res.violation("C09.R8", det, p.node or det.node, f"PatchMode.determine returns '{mode}' without range-checking the number of patches derived from `{what}`: with more patches than the id type holds the generated ids wrap around and records are filed under other patches", key_extra=f"patch-count-unchecked-{mode}")
+    if n < 2:
+        raise AnalysisError(f"C09.R8: only {n} mode-returning paths for generated patch ids found, minimum 2")
+
+
 RULES = [
     ("C09.R1", rule_r1, QUICK),
     ("C09.R2", rule_r2, QUICK),
@@ -833,4 +879,5 @@ RULES = [
     ("C09.R5", rule_r5, QUICK),
     ("C09.R6", rule_r6, QUICK),
     ("C09.R7", rule_r7, QUICK),
+    ("C09.R8", rule_r8, QUICK),
 ]
